@@ -199,4 +199,11 @@ def check_prop(prop, tier, seed, a):
 
 
 if __name__ == "__main__":
-    sys.exit(main())
+    rc = 2
+    try:
+        rc = main()
+    finally:
+        import shutil
+        if not any(x == "--keep" for x in sys.argv):
+            shutil.rmtree(core.BUILD, ignore_errors=True)
+    sys.exit(rc)
